@@ -1,7 +1,7 @@
 from vp.core import Inst
 
 LEVEL = "model_checking"
-GRIDSET = ("grid_mask.0:7", "grid_mask.1:7")
+GRIDSET = ("grid_mask.0:7", "grid_mask.1:7", "memcmp.0:70")
 
 
 def instances(tier):
